@@ -1,6 +1,1342 @@
-//! C07: harness commands for property C07 (stub).
+//! C07: GPOS / kern geometry.  Generated fonts (fontgen) shaped through the PUBLIC API.
+//! Sub-commands (line oriented):
+//!   cases  --seed S --n N [--first K]   fonts K..K+N: one `font` line (Coq term) per font, `case` lines
+//!          (request -> glyphs) for the model correspondence, `geo` lines for the implementation-level
+//!          geometric predicate (evaluated against the font's own anchors / records, independent of
+//!          the Gallina model), `fired` lines (which lookup kinds changed the result), `stat` lines
+//!   font   --seed S --index K           Debug print + hex bytes of font K (for replays)
+//!   one    --seed S --index K --req R   one request on font K: case + geo lines
+//!   kernoff-corpus                      kern on/off on the repository's fonts that have a kern table
+//!   deep-chain --n N [--rtl-flag 0|1]   cursive chain of N glyphs (child precedes parent when the
+//!          RightToLeft flag is set): run in a child process, a stack overflow aborts it
+use crate::fontgen::coq::ToCoq;
+use crate::fontgen::*;
+use crate::shp::{self, Req, G};
+use crate::util::*;
+use rustybuzz::Direction;
+use std::collections::BTreeMap;
 
-pub fn run(_args: &[String]) {
-    eprintln!("c07: not implemented");
-    std::process::exit(2);
+pub fn run(args: &[String]) {
+    quiet_panics();
+    match args.get(0).map(|s| s.as_str()) {
+        Some("cases") => cases_cmd(args),
+        Some("font") => font_cmd(args),
+        Some("one") => one_cmd(args),
+        Some("kernoff-corpus") => kernoff_corpus_cmd(),
+        Some("deep-chain") => deep_chain_cmd(args),
+        _ => {
+            eprintln!("c07 cases|font|one|kernoff-corpus|deep-chain");
+            std::process::exit(2)
+        }
+    }
+}
+
+// ------------------------------------------------------------------------------------------------
+// alphabet: glyph 0 .notdef; 1..=6 bases; 7,8 ligatures; 9..=12 marks; 13,14 unclassified; 15,16 bases
+
+const NG: u16 = 17;
+const BASES: &[u16] = &[1, 2, 3, 4, 5, 6, 15, 16];
+const LIGS: &[u16] = &[7, 8];
+const MARKS: &[u16] = &[9, 10, 11, 12];
+const OTHERS: &[u16] = &[13, 14];
+
+#[derive(Clone, Copy, Debug, PartialEq, Eq)]
+pub enum Profile {
+    Adjust,  // single + pair adjustments (each under its own feature), no attachments
+    Kern,    // legacy kern table (format 0), optionally a GPOS without a kern feature
+    Cursive, // one cursive lookup
+    Marks,   // mark-to-base / mark-to-ligature / mark-to-mark, optional GSUB ligature
+    Mixed,   // anything (model correspondence only)
+}
+
+fn profile_of(k: u64) -> Profile {
+    match k % 5 {
+        0 => Profile::Adjust,
+        1 => Profile::Kern,
+        2 => Profile::Cursive,
+        3 => Profile::Marks,
+        _ => Profile::Mixed,
+    }
+}
+
+fn gdef_class(spec: &FontSpec, g: u16) -> u16 {
+    match &spec.gdef {
+        Some(gd) if !gd.glyph_classes.is_empty() => gd.glyph_classes.iter().find(|(x, _)| *x == g).map(|x| x.1).unwrap_or(0),
+        // no class definition: every PUA glyph is synthesized as a base glyph
+        _ => 1,
+    }
+}
+
+fn mark_attach_class(spec: &FontSpec, g: u16) -> u16 {
+    match &spec.gdef {
+        Some(gd) => gd.mark_attach_classes.iter().find(|(x, _)| *x == g).map(|x| x.1).unwrap_or(0),
+        None => 0,
+    }
+}
+
+fn has_classes(spec: &FontSpec) -> bool {
+    matches!(&spec.gdef, Some(gd) if !gd.glyph_classes.is_empty())
+}
+
+/// Spec-level reading of the lookup flags: is glyph `g` ignored by a lookup with these flags?
+fn ignored(spec: &FontSpec, flags: u16, set: Option<u16>, g: u16) -> bool {
+    let class = gdef_class(spec, g);
+    if class == 1 && flags & lookup_flags::IGNORE_BASE_GLYPHS != 0 {
+        return true;
+    }
+    if class == 2 && flags & lookup_flags::IGNORE_LIGATURES != 0 {
+        return true;
+    }
+    if class == 3 {
+        if flags & lookup_flags::IGNORE_MARKS != 0 {
+            return true;
+        }
+        if let Some(s) = set {
+            let inset = spec.gdef.as_ref().and_then(|gd| gd.mark_glyph_sets.get(s as usize)).map_or(false, |v| v.contains(&g));
+            return !inset;
+        }
+        let mat = flags & lookup_flags::MARK_ATTACHMENT_TYPE_MASK;
+        if mat != 0 {
+            return (mat >> 8) != mark_attach_class(spec, g);
+        }
+    }
+    false
+}
+
+// ------------------------------------------------------------------------------------------------
+// generators
+
+fn subset(r: &mut Rng, xs: &[u16], num: u64, den: u64) -> Vec<u16> {
+    let mut v: Vec<u16> = xs.iter().copied().filter(|_| r.chance(num, den)).collect();
+    if v.is_empty() {
+        v.push(*r.pick(xs));
+    }
+    v.sort();
+    v.dedup();
+    v
+}
+
+fn coverage(r: &mut Rng, gs: &[u16]) -> Coverage {
+    if r.chance(1, 3) {
+        // ranges: maximal runs
+        let mut rs: Vec<(u16, u16)> = Vec::new();
+        for &g in gs {
+            match rs.last_mut() {
+                Some(l) if l.1 + 1 == g => l.1 = g,
+                _ => rs.push((g, g)),
+            }
+        }
+        Coverage::Ranges(rs)
+    } else {
+        Coverage::Glyphs(gs.to_vec())
+    }
+}
+
+fn small(r: &mut Rng) -> i16 {
+    match r.below(6) {
+        0 | 1 => 0,
+        2 => r.range(1, 40) as i16,
+        3 => -(r.range(1, 40) as i16),
+        4 => r.range(1, 300) as i16 - 150,
+        _ => *r.pick(&[-1, 1, 2, -3, 7, 255, -256, 1000, -1000]),
+    }
+}
+
+fn value_record(r: &mut Rng) -> ValueRecord {
+    match r.below(5) {
+        0 => ValueRecord::ZERO,
+        1 => ValueRecord::xadv(small(r)),
+        _ => ValueRecord::new(small(r), small(r), small(r), small(r)),
+    }
+}
+
+fn nonzero_record(r: &mut Rng) -> ValueRecord {
+    loop {
+        let v = value_record(r);
+        if v != ValueRecord::ZERO {
+            return v;
+        }
+    }
+}
+
+fn vfmt(r: &mut Rng) -> ValueFormat {
+    if r.chance(1, 2) { ValueFormat::All } else { ValueFormat::NonZero }
+}
+
+fn anchor(r: &mut Rng) -> Anchor {
+    Anchor { x: r.range(0, 1200) as i16 - 300, y: r.range(0, 1400) as i16 - 400 }
+}
+
+fn opt_anchor(r: &mut Rng, none_num: u64, den: u64) -> Option<Anchor> {
+    if r.chance(none_num, den) { None } else { Some(anchor(r)) }
+}
+
+fn all_glyphs() -> Vec<u16> {
+    (1..NG).collect()
+}
+
+/// lookup flags for a positioning lookup; `marks_ok`: may ignore marks / filter marks
+fn rand_flags(r: &mut Rng, spec: &FontSpec, plain: (u64, u64)) -> (u16, Option<u16>) {
+    if r.chance(plain.0, plain.1) || r.chance(1, 2) {
+        return (0, None);
+    }
+    let mut f = 0u16;
+    let mut set = None;
+    match r.below(7) {
+        0 => f |= lookup_flags::IGNORE_MARKS,
+        1 => f |= lookup_flags::IGNORE_BASE_GLYPHS,
+        2 => f |= lookup_flags::IGNORE_LIGATURES,
+        3 => {
+            let nsets = spec.gdef.as_ref().map_or(0, |g| g.mark_glyph_sets.len());
+            if nsets > 0 {
+                set = Some(r.below(nsets as u64) as u16);
+            } else {
+                f |= lookup_flags::IGNORE_MARKS;
+            }
+        }
+        4 => f |= (r.range(1, 2) as u16) << 8,
+        5 => f |= lookup_flags::IGNORE_MARKS | lookup_flags::IGNORE_LIGATURES,
+        _ => f |= lookup_flags::IGNORE_BASE_GLYPHS | ((r.range(1, 2) as u16) << 8),
+    }
+    (f, set)
+}
+
+fn gen_gdef(r: &mut Rng) -> Option<Gdef> {
+    if r.chance(1, 10) {
+        return None;
+    }
+    let mut classes: Vec<(u16, u16)> = Vec::new();
+    for &g in BASES {
+        classes.push((g, 1));
+    }
+    for &g in LIGS {
+        classes.push((g, 2));
+    }
+    for &g in MARKS {
+        classes.push((g, 3));
+    }
+    if r.chance(1, 3) {
+        classes.push((13, 4));
+    }
+    classes.sort();
+    let mut mac = Vec::new();
+    for &g in MARKS {
+        let c = r.below(3) as u16;
+        if c != 0 {
+            mac.push((g, c));
+        }
+    }
+    let nsets = r.below(3);
+    let mut sets = Vec::new();
+    for _ in 0..nsets {
+        sets.push(subset(r, MARKS, 1, 2));
+    }
+    Some(Gdef { glyph_classes: classes, mark_attach_classes: mac, mark_glyph_sets: sets })
+}
+
+fn gen_single(r: &mut Rng) -> PosSubtable {
+    let gs = subset(r, &all_glyphs(), 1, 3);
+    if r.chance(1, 2) {
+        PosSubtable::Single1 { coverage: coverage(r, &gs), value: nonzero_record(r), vf: vfmt(r) }
+    } else {
+        let values = gs.iter().map(|_| value_record(r)).collect();
+        PosSubtable::Single2 { coverage: coverage(r, &gs), values, vf: vfmt(r) }
+    }
+}
+
+fn gen_pair(r: &mut Rng) -> PosSubtable {
+    let firsts = subset(r, &all_glyphs(), 1, 3);
+    if r.chance(1, 2) {
+        let mut sets = Vec::new();
+        for _ in &firsts {
+            let seconds = subset(r, &all_glyphs(), 1, 3);
+            let set: Vec<(u16, ValueRecord, ValueRecord)> = seconds
+                .iter()
+                .map(|g| (*g, value_record(r), if r.chance(1, 2) { ValueRecord::ZERO } else { value_record(r) }))
+                .collect();
+            sets.push(set);
+        }
+        PosSubtable::Pair1 { coverage: coverage(r, &firsts), pair_sets: sets, vf: vfmt(r) }
+    } else {
+        let n1 = r.range(1, 3) as u16;
+        let n2 = r.range(1, 3) as u16;
+        let cd = |r: &mut Rng, n: u16| -> ClassDef {
+            let pairs: Vec<(u16, u16)> = all_glyphs().into_iter().filter_map(|g| {
+                let c = r.below(n as u64 + 1) as u16; // may produce class n (out of the matrix)
+                if c == 0 { None } else { Some((g, c)) }
+            }).collect();
+            if r.chance(1, 2) {
+                ClassDef::from_pairs(&pairs)
+            } else {
+                let start = 1u16;
+                let mut classes = vec![0u16; (NG - 1) as usize];
+                for (g, c) in &pairs {
+                    classes[(*g - start) as usize] = *c;
+                }
+                ClassDef::Format1 { start, classes }
+            }
+        };
+        let class_def1 = cd(r, n1);
+        let class_def2 = cd(r, n2);
+        let mut records = Vec::new();
+        for _ in 0..n1 {
+            let mut row = Vec::new();
+            for _ in 0..n2 {
+                row.push((value_record(r), if r.chance(1, 2) { ValueRecord::ZERO } else { value_record(r) }));
+            }
+            records.push(row);
+        }
+        PosSubtable::Pair2 { coverage: coverage(r, &firsts), class_def1, class_def2, records, vf: vfmt(r) }
+    }
+}
+
+fn gen_cursive(r: &mut Rng) -> PosSubtable {
+    let pool: Vec<u16> = BASES.iter().chain(LIGS.iter()).chain(OTHERS.iter()).copied().chain(if r.chance(1, 4) { vec![9u16] } else { vec![] }).collect();
+    let gs = subset(r, &pool, 2, 3);
+    let ee = gs.iter().map(|_| (opt_anchor(r, 1, 5), opt_anchor(r, 1, 5))).collect();
+    PosSubtable::Cursive { coverage: coverage(r, &gs), entry_exit: ee }
+}
+
+fn gen_mark_array(r: &mut Rng, marks: &[u16], class_count: u16, wild: bool) -> Vec<(u16, Anchor)> {
+    marks
+        .iter()
+        .map(|_| {
+            let c = if wild && r.chance(1, 12) { class_count } else { r.below(class_count as u64) as u16 };
+            (c, anchor(r))
+        })
+        .collect()
+}
+
+fn gen_mark_base(r: &mut Rng, wild: bool) -> PosSubtable {
+    let marks = subset(r, MARKS, 3, 4);
+    let pool: Vec<u16> = BASES.iter().chain(LIGS.iter()).chain(OTHERS.iter()).copied().collect();
+    let bases = subset(r, &pool, 3, 4);
+    let cc = r.range(1, 3) as u16;
+    let arr = gen_mark_array(r, &marks, cc, wild);
+    let rows = bases.iter().map(|_| (0..cc).map(|_| opt_anchor(r, 1, 6)).collect()).collect();
+    PosSubtable::MarkBase { mark_coverage: coverage(r, &marks), base_coverage: coverage(r, &bases), class_count: cc, marks: arr, bases: rows }
+}
+
+fn gen_mark_lig(r: &mut Rng, wild: bool) -> PosSubtable {
+    let marks = subset(r, MARKS, 3, 4);
+    let ligs = subset(r, LIGS, 3, 4);
+    let cc = r.range(1, 2) as u16;
+    let arr = gen_mark_array(r, &marks, cc, wild);
+    let ligatures = ligs
+        .iter()
+        .map(|_| {
+            let ncomp = r.range(1, 3);
+            (0..ncomp).map(|_| (0..cc).map(|_| opt_anchor(r, 1, 8)).collect()).collect()
+        })
+        .collect();
+    PosSubtable::MarkLig { mark_coverage: coverage(r, &marks), lig_coverage: coverage(r, &ligs), class_count: cc, marks: arr, ligatures }
+}
+
+fn gen_mark_mark(r: &mut Rng, wild: bool) -> PosSubtable {
+    let m1 = subset(r, MARKS, 3, 4);
+    let m2 = subset(r, MARKS, 3, 4);
+    let cc = r.range(1, 2) as u16;
+    let arr = gen_mark_array(r, &m1, cc, wild);
+    let rows = m2.iter().map(|_| (0..cc).map(|_| opt_anchor(r, 1, 8)).collect()).collect();
+    PosSubtable::MarkMark { mark1_coverage: coverage(r, &m1), mark2_coverage: coverage(r, &m2), class_count: cc, marks: arr, mark2s: rows }
+}
+
+fn gen_kern(r: &mut Rng, allow_cross: bool) -> Vec<KernSubtable> {
+    let n = r.range(1, 3);
+    let mut v = Vec::new();
+    for _ in 0..n {
+        let mut pairs: Vec<(u16, u16, i16)> = Vec::new();
+        let np = r.range(1, 14);
+        for _ in 0..np {
+            let l = r.range(1, (NG - 1) as u64) as u16;
+            let rr = r.range(1, (NG - 1) as u64) as u16;
+            let mut val = small(r);
+            if val == 0 {
+                val = -33;
+            }
+            pairs.push((l, rr, val));
+        }
+        pairs.sort_by_key(|p| (p.0, p.1));
+        pairs.dedup_by_key(|p| (p.0, p.1));
+        v.push(KernSubtable {
+            horizontal: !r.chance(1, 6),
+            minimum: r.chance(1, 8),
+            cross_stream: allow_cross && r.chance(1, 4),
+            override_: r.chance(1, 8),
+            pairs,
+        });
+    }
+    v
+}
+
+fn gen_liga(r: &mut Rng, spec: &FontSpec) -> Lookup<SubstSubtable> {
+    // ligatures of bases: 1 2 -> 7, 1 2 3 -> 8, 3 4 -> 7/8 (longest first within a set)
+    let mut sets: BTreeMap<u16, Vec<Ligature>> = BTreeMap::new();
+    if r.chance(2, 3) {
+        sets.entry(1).or_default().push(Ligature { glyph: 8, components: vec![2, 3] });
+    }
+    sets.entry(1).or_default().push(Ligature { glyph: 7, components: vec![2] });
+    if r.chance(1, 2) {
+        sets.entry(3).or_default().push(Ligature { glyph: *r.pick(LIGS), components: vec![4] });
+    }
+    let cov: Vec<u16> = sets.keys().copied().collect();
+    let flags = if has_classes(spec) && r.chance(3, 4) { lookup_flags::IGNORE_MARKS } else { 0 };
+    Lookup::with_flags(flags, vec![SubstSubtable::Ligature { coverage: Coverage::Glyphs(cov), ligature_sets: sets.into_values().collect() }])
+}
+
+const H_TAGS: &[&[u8; 4]] = &[b"kern", b"curs", b"dist"];
+const HV_TAGS: &[&[u8; 4]] = &[b"mark", b"mkmk", b"abvm", b"blwm"];
+
+/// Assemble a GPOS from (tag, lookup) pairs: one feature record per distinct tag, in first-use order.
+fn assemble(lookups: Vec<(Tag, Lookup<PosSubtable>)>) -> Layout<PosSubtable> {
+    let mut feats: Vec<(Tag, Vec<u16>)> = Vec::new();
+    let mut lks = Vec::new();
+    for (i, (t, l)) in lookups.into_iter().enumerate() {
+        match feats.iter_mut().find(|f| f.0 == t) {
+            Some(f) => f.1.push(i as u16),
+            None => feats.push((t, vec![i as u16])),
+        }
+        lks.push(l);
+    }
+    Layout::with_features(feats, lks)
+}
+
+fn mk_lookup(r: &mut Rng, spec: &FontSpec, plain: (u64, u64), subtables: Vec<PosSubtable>) -> Lookup<PosSubtable> {
+    let (flags, set) = rand_flags(r, spec, plain);
+    Lookup { flags, mark_filtering_set: set, subtables, use_extension: r.chance(1, 10) }
+}
+
+pub fn gen_font(seed: u64, index: u64) -> (FontSpec, Profile) {
+    let mut r = Rng::new(seed.wrapping_mul(0x9E37_79B9).wrapping_add(index.wrapping_mul(7919)).wrapping_add(0xC07));
+    let r = &mut r;
+    let profile = profile_of(index);
+    let mut spec = FontSpec::basic(NG);
+    spec.hadv = (0..NG).map(|g| if g == 0 { 500 } else { match r.below(8) { 0 => 0, 1 => 1, _ => r.range(100, 1200) as u16 } }).collect();
+    spec.ascender = r.range(500, 1000) as i16;
+    spec.descender = -(r.range(0, 400) as i16);
+    if r.chance(2, 3) {
+        spec.vmetrics = Some(VMetrics {
+            ascender: r.range(300, 700) as i16,
+            descender: -(r.range(300, 700) as i16),
+            line_gap: 0,
+            vadv: (0..NG).map(|_| r.range(0, 1500) as u16).collect(),
+        });
+    }
+    spec.gdef = gen_gdef(r);
+    let tag = |r: &mut Rng, h: &'static [u8; 4]| -> Tag {
+        // half of the lookups get a tag that is also applied in vertical text
+        if r.chance(1, 2) { *h } else { **r.pick(HV_TAGS) }
+    };
+    match profile {
+        Profile::Adjust => {
+            let mut lks = Vec::new();
+            let t1 = if r.chance(1, 2) { *b"dist" } else { *b"abvm" };
+            let sub = gen_single(r);
+            lks.push((t1, mk_lookup(r, &spec, (1, 2), vec![sub])));
+            let t2 = if r.chance(2, 3) { *b"kern" } else { *b"blwm" };
+            let n = r.range(1, 2);
+            let subs: Vec<PosSubtable> = (0..n).map(|_| gen_pair(r)).collect();
+            lks.push((t2, mk_lookup(r, &spec, (1, 2), subs)));
+            spec.gpos = Some(assemble(lks));
+        }
+        Profile::Kern => {
+            spec.kern = Some(gen_kern(r, true));
+            if r.chance(1, 3) {
+                // a GPOS without a kern feature: both GPOS and the kern table apply
+                let sub = gen_single(r);
+                spec.gpos = Some(assemble(vec![(*b"dist", mk_lookup(r, &spec, (1, 1), vec![sub]))]));
+            }
+        }
+        Profile::Cursive => {
+            let t = if r.chance(1, 2) { *b"curs" } else { *b"abvm" };
+            let (mut flags, set) = rand_flags(r, &spec, (1, 2));
+            if r.chance(1, 2) {
+                flags |= lookup_flags::RIGHT_TO_LEFT;
+            }
+            let sub = gen_cursive(r);
+            spec.gpos = Some(assemble(vec![(t, Lookup { flags, mark_filtering_set: set, subtables: vec![sub], use_extension: false })]));
+        }
+        Profile::Marks => {
+            if r.chance(2, 3) {
+                let t = if r.chance(1, 2) { *b"liga" } else { *b"ccmp" };
+                let l = gen_liga(r, &spec);
+                spec.gsub = Some(Layout::single_feature(t, vec![l]));
+            }
+            let mut lks = Vec::new();
+            let sub = gen_mark_base(r, false);
+            lks.push((*b"mark", mk_lookup(r, &spec, (1, 1), vec![sub])));
+            let sub = gen_mark_lig(r, false);
+            lks.push((*b"mark", mk_lookup(r, &spec, (1, 1), vec![sub])));
+            if r.chance(2, 3) {
+                let sub = gen_mark_mark(r, false);
+                lks.push((*b"mkmk", mk_lookup(r, &spec, (2, 3), vec![sub])));
+            }
+            spec.gpos = Some(assemble(lks));
+        }
+        Profile::Mixed => {
+            if r.chance(1, 2) {
+                let t = if r.chance(1, 2) { *b"liga" } else { *b"ccmp" };
+                let l = gen_liga(r, &spec);
+                spec.gsub = Some(Layout::single_feature(t, vec![l]));
+            }
+            let n = r.range(1, 6);
+            let mut lks = Vec::new();
+            for _ in 0..n {
+                let (t, subs): (Tag, Vec<PosSubtable>) = match r.below(7) {
+                    0 => (tag(r, b"dist"), vec![gen_single(r)]),
+                    1 => (tag(r, b"kern"), (0..r.range(1, 2)).map(|_| gen_pair(r)).collect()),
+                    2 => (tag(r, b"curs"), (0..r.range(1, 2)).map(|_| gen_cursive(r)).collect()),
+                    3 => (*b"mark", (0..r.range(1, 2)).map(|_| gen_mark_base(r, true)).collect()),
+                    4 => (*b"mark", vec![gen_mark_lig(r, true)]),
+                    5 => (*b"mkmk", vec![gen_mark_mark(r, true)]),
+                    _ => (tag(r, b"dist"), vec![gen_single(r)]),
+                };
+                let mut l = mk_lookup(r, &spec, (0, 1), subs);
+                if matches!(l.subtables[0], PosSubtable::Cursive { .. }) && r.chance(1, 2) {
+                    l.flags |= lookup_flags::RIGHT_TO_LEFT;
+                }
+                lks.push((t, l));
+            }
+            spec.gpos = Some(assemble(lks));
+            if r.chance(1, 3) {
+                // cross-stream subtables reset every attachment (see kerning.rs); kept out of fonts with
+                // attachment lookups here and exercised by the Kern profile
+                let has_attach = lks_have_attachment(spec.gpos.as_ref().unwrap());
+                spec.kern = Some(gen_kern(r, !has_attach));
+            }
+        }
+    }
+    let _ = H_TAGS;
+    (spec, profile)
+}
+
+fn lks_have_attachment(l: &Layout<PosSubtable>) -> bool {
+    l.lookups.iter().any(|lk| {
+        lk.subtables.iter().any(|s| matches!(s, PosSubtable::Cursive { .. } | PosSubtable::MarkBase { .. } | PosSubtable::MarkLig { .. } | PosSubtable::MarkMark { .. }))
+    })
+}
+
+// ------------------------------------------------------------------------------------------------
+// texts and requests
+
+fn gen_text(r: &mut Rng, profile: Profile) -> Vec<u16> {
+    let len = match r.below(10) {
+        0 => 1,
+        1 => r.range(9, 24),
+        2 if profile == Profile::Cursive || profile == Profile::Mixed => r.range(25, 64),
+        _ => r.range(2, 8),
+    } as usize;
+    let mut t: Vec<u16> = Vec::new();
+    while t.len() < len {
+        match r.below(10) {
+            0 | 1 | 2 | 3 => t.push(*r.pick(BASES)),
+            4 | 5 => t.push(*r.pick(MARKS)),
+            6 => t.push(*r.pick(LIGS)),
+            7 => t.push(*r.pick(OTHERS)),
+            8 => {
+                // ligature component sequence, marks in between
+                t.push(1);
+                if r.chance(1, 2) {
+                    t.push(*r.pick(MARKS));
+                }
+                t.push(2);
+                if r.chance(1, 3) {
+                    if r.chance(1, 2) {
+                        t.push(*r.pick(MARKS));
+                    }
+                    t.push(3);
+                }
+            }
+            _ => {
+                t.push(*r.pick(BASES));
+                let n = r.range(1, 3);
+                for _ in 0..n {
+                    t.push(*r.pick(MARKS));
+                }
+            }
+        }
+    }
+    t.truncate(64);
+    t
+}
+
+fn dirs() -> [Direction; 4] {
+    [Direction::LeftToRight, Direction::RightToLeft, Direction::TopToBottom, Direction::BottomToTop]
+}
+
+fn req_of(text: &[u16], dir: Direction, script: Option<&str>, feats: &[String]) -> Req {
+    Req {
+        text: text.iter().enumerate().map(|(i, g)| (pua(*g as u32 - 1), i as u32)).collect(),
+        dir: Some(dir),
+        script: script.map(|s| s.to_string()),
+        features: feats.to_vec(),
+        ..Req::default()
+    }
+}
+
+fn shape_spec(bytes: &[u8], req: &Req) -> Result<Vec<G>, String> {
+    let b = bytes.to_vec();
+    let rq = req.clone();
+    catch(move || {
+        let face = rustybuzz::Face::from_slice(&b, 0).expect("face");
+        shp::shape_req(&face, &rq)
+    })
+}
+
+fn gpos_tags(spec: &FontSpec) -> Vec<Tag> {
+    spec.gpos.as_ref().map_or(vec![], |l| l.features.iter().map(|f| f.tag).collect())
+}
+
+fn tag_str(t: &Tag) -> String {
+    String::from_utf8_lossy(t).to_string()
+}
+
+fn kind_name(s: &PosSubtable) -> &'static str {
+    match s {
+        PosSubtable::Single1 { .. } | PosSubtable::Single2 { .. } => "single",
+        PosSubtable::Pair1 { .. } => "pair1",
+        PosSubtable::Pair2 { .. } => "pair2",
+        PosSubtable::Cursive { .. } => "cursive",
+        PosSubtable::MarkBase { .. } => "markbase",
+        PosSubtable::MarkLig { .. } => "marklig",
+        PosSubtable::MarkMark { .. } => "markmark",
+        _ => "context",
+    }
+}
+
+struct Stats(BTreeMap<String, u64>);
+impl Stats {
+    fn add(&mut self, k: &str, n: u64) {
+        *self.0.entry(k.to_string()).or_insert(0) += n;
+    }
+}
+
+// ------------------------------------------------------------------------------------------------
+// the run over one font
+
+fn run_font(seed: u64, index: u64, only_req: Option<&str>, stats: &mut Stats) {
+    let (spec, profile) = gen_font(seed, index);
+    let problems = check(&spec);
+    if !problems.is_empty() {
+        println!("genbug {} {}", index, problems.join("; "));
+        return;
+    }
+    let bytes = build(&spec);
+    println!("font {} profile={:?} coq={}", index, profile, spec.coq());
+    stats.add(&format!("fonts.{:?}", profile), 1);
+    let mut r = Rng::new(seed.wrapping_mul(31).wrapping_add(index).wrapping_add(0x7E57));
+    let mut reqs: Vec<Req> = Vec::new();
+    if let Some(rs) = only_req {
+        reqs.push(shp::parse_req(rs));
+    } else {
+        let ntexts = 3;
+        for ti in 0..ntexts {
+            let text = gen_text(&mut r, profile);
+            for d in dirs() {
+                let script = match r.below(8) {
+                    0 => Some("Phnx"), // natively right-to-left, default shaper
+                    1 => Some("Latn"),
+                    _ => None,
+                };
+                reqs.push(req_of(&text, d, script, &[]));
+                let off = if r.chance(1, 2) { "kern=0" } else { "-kern" };
+                reqs.push(req_of(&text, d, script, &[off.to_string()]));
+            }
+            // one request per GPOS feature of the font with that feature switched off (LTR and TTB)
+            if ti == 0 {
+                for t in gpos_tags(&spec) {
+                    for d in [Direction::LeftToRight, Direction::TopToBottom, Direction::RightToLeft] {
+                        reqs.push(req_of(&text, d, None, &[format!("-{}", tag_str(&t))]));
+                    }
+                }
+                // vertical text with the horizontal-only features switched on by the user
+                reqs.push(req_of(&text, Direction::TopToBottom, None, &["kern".to_string(), "curs".to_string(), "dist".to_string()]));
+            }
+        }
+    }
+    for (ci, req) in reqs.iter().enumerate() {
+        let out = shape_spec(&bytes, req);
+        match &out {
+            Ok(gs) => println!("case {} {} {} -> {}", index, ci, shp::fmt_req(req), shp::fmt_g(gs)),
+            Err(c) => println!("case {} {} {} -> panic {}", index, ci, shp::fmt_req(req), c),
+        }
+        stats.add("shapes", 1);
+        if let Ok(gs) = &out {
+            geo::evaluate(&spec, &bytes, profile, req, gs, index, ci, stats);
+            // which features fire (change the result when switched off): measured on the implementation
+            if req.features.is_empty() && req.dir == Some(Direction::LeftToRight) {
+                for t in gpos_tags(&spec) {
+                    let mut r2 = req.clone();
+                    r2.features = vec![format!("-{}", tag_str(&t))];
+                    if let Ok(g2) = shape_spec(&bytes, &r2) {
+                        if &g2 != gs {
+                            let l = spec.gpos.as_ref().unwrap();
+                            let f = l.features.iter().find(|f| f.tag == t).unwrap();
+                            let mut kinds: Vec<&str> = f.lookup_indices.iter().flat_map(|li| l.lookups[*li as usize].subtables.iter().map(kind_name)).collect();
+                            kinds.sort();
+                            kinds.dedup();
+                            for k in kinds {
+                                stats.add(&format!("fired.{}", k), 1);
+                            }
+                        }
+                    }
+                }
+            }
+        }
+    }
+}
+
+fn cases_cmd(args: &[String]) {
+    let seed = arg_u64(args, "--seed", 1);
+    let n = arg_u64(args, "--n", 10);
+    let first = arg_u64(args, "--first", 0);
+    let mut stats = Stats(BTreeMap::new());
+    for k in first..first + n {
+        run_font(seed, k, None, &mut stats);
+    }
+    for (k, v) in &stats.0 {
+        println!("stat {} {}", k, v);
+    }
+}
+
+fn hex(b: &[u8]) -> String {
+    let mut s = String::with_capacity(b.len() * 2);
+    for x in b {
+        s.push_str(&format!("{:02x}", x));
+    }
+    s
+}
+
+fn font_cmd(args: &[String]) {
+    let seed = arg_u64(args, "--seed", 1);
+    let index = arg_u64(args, "--index", 0);
+    let (spec, profile) = gen_font(seed, index);
+    println!("profile {:?}", profile);
+    println!("debug {:?}", spec);
+    println!("coq {}", spec.coq());
+    println!("hex {}", hex(&build(&spec)));
+}
+
+fn one_cmd(args: &[String]) {
+    let seed = arg_u64(args, "--seed", 1);
+    let index = arg_u64(args, "--index", 0);
+    let req = arg_str(args, "--req").unwrap_or("");
+    let mut stats = Stats(BTreeMap::new());
+    run_font(seed, index, Some(req), &mut stats);
+}
+
+// ------------------------------------------------------------------------------------------------
+// kern on/off on corpus fonts with a kern table (implementation-level predicate: glyph order and
+// clusters are identical with kerning on and off)
+
+fn kernoff_corpus_cmd() {
+    let repo = shp::repo_root();
+    let mut n = 0u64;
+    let mut nontrivial = 0u64;
+    for path in shp::corpus_fonts(&repo) {
+        let Ok(data) = std::fs::read(&path) else { continue };
+        let d2 = data.clone();
+        let has_kern = catch(move || rustybuzz::Face::from_slice(&d2, 0).map_or(false, |f| f.tables().kern.is_some())).unwrap_or(false);
+        if !has_kern {
+            continue;
+        }
+        let d3 = data.clone();
+        let chars = catch(move || rustybuzz::Face::from_slice(&d3, 0).map(|f| shp::cmap_chars(&f, 40)).unwrap_or_default()).unwrap_or_default();
+        let mut texts: Vec<Vec<u32>> = vec![vec![0x5D0, 0x5D1, 0x5D2], vec![0x41, 0x56, 0x41], vec![0x627, 0x644, 0x645]];
+        if chars.len() >= 3 {
+            texts.push(chars.iter().take(6).copied().collect());
+        }
+        for t in &texts {
+            for d in dirs() {
+                let mk = |feats: Vec<String>| Req { text: t.iter().enumerate().map(|(i, c)| (*c, i as u32)).collect(), dir: Some(d), features: feats, ..Req::default() };
+                let on = shape_spec(&data, &mk(vec![]));
+                let off = shape_spec(&data, &mk(vec!["kern=0".to_string()]));
+                n += 1;
+                if let (Ok(a), Ok(b)) = (&on, &off) {
+                    let ka: Vec<(u32, u32)> = a.iter().map(|g| (g.gid, g.cluster)).collect();
+                    let kb: Vec<(u32, u32)> = b.iter().map(|g| (g.gid, g.cluster)).collect();
+                    if a != b {
+                        nontrivial += 1;
+                    }
+                    if ka != kb {
+                        println!("kernoff-order-differs font={} {} on={} off={}", path, shp::fmt_req(&mk(vec!["kern=0".to_string()])), shp::fmt_g(a), shp::fmt_g(b));
+                    }
+                }
+            }
+        }
+    }
+    println!("kernoff-corpus-summary shapes={} nontrivial={}", n, nontrivial);
+}
+
+// ------------------------------------------------------------------------------------------------
+// deep attachment chain (run in a child process by the driver)
+
+fn deep_chain_cmd(args: &[String]) {
+    let n = arg_u64(args, "--n", 1000) as usize;
+    let rtl_flag = arg_u64(args, "--rtl-flag", 1) != 0;
+    let mut spec = FontSpec::basic(4);
+    spec.gpos = Some(Layout::single_feature(
+        *b"curs",
+        vec![Lookup::with_flags(
+            if rtl_flag { lookup_flags::RIGHT_TO_LEFT } else { 0 },
+            vec![PosSubtable::Cursive { coverage: Coverage::Glyphs(vec![1]), entry_exit: vec![(Some(Anchor { x: 0, y: 0 }), Some(Anchor { x: 100, y: 10 }))] }],
+        )],
+    ));
+    let bytes = build(&spec);
+    let face = rustybuzz::Face::from_slice(&bytes, 0).expect("face");
+    let text: Vec<u16> = vec![1; n];
+    let req = req_of(&text, Direction::LeftToRight, None, &[]);
+    let out = shp::shape_req(&face, &req);
+    // y offsets: with the flag every glyph is the child of its successor
+    let first = out.first().map(|g| g.yo).unwrap_or(0);
+    let last = out.last().map(|g| g.yo).unwrap_or(0);
+    let mid = out.get(n / 2).map(|g| g.yo).unwrap_or(0);
+    println!("deep-chain ok n={} len={} yo_first={} yo_mid={} yo_last={}", n, out.len(), first, mid, last);
+}
+
+// ------------------------------------------------------------------------------------------------
+// implementation-level geometric predicate (independent of the Gallina model)
+
+mod geo {
+    use super::*;
+
+    #[derive(Clone, Copy, PartialEq, Eq, Debug)]
+    enum D {
+        Ltr,
+        Rtl,
+        Ttb,
+        Btt,
+    }
+
+    fn horizontal(d: D) -> bool {
+        matches!(d, D::Ltr | D::Rtl)
+    }
+    fn forward(d: D) -> bool {
+        matches!(d, D::Ltr | D::Ttb)
+    }
+
+    /// (processing direction, text reversed before shaping, output reversed at the end)
+    fn directions(req: &Req) -> (D, bool, bool) {
+        let dir = match req.dir {
+            Some(Direction::RightToLeft) => D::Rtl,
+            Some(Direction::TopToBottom) => D::Ttb,
+            Some(Direction::BottomToTop) => D::Btt,
+            _ => D::Ltr,
+        };
+        let native = match req.script.as_deref() {
+            Some("Phnx") => Some(D::Rtl),
+            Some("Latn") => Some(D::Ltr),
+            _ => None,
+        };
+        let (proc_dir, flipped) = match dir {
+            D::Ltr | D::Rtl => match native {
+                Some(h) if h != dir => (if dir == D::Ltr { D::Rtl } else { D::Ltr }, true),
+                _ => (dir, false),
+            },
+            D::Ttb => (D::Ttb, false),
+            D::Btt => (D::Ttb, true),
+        };
+        (proc_dir, flipped, !forward(proc_dir))
+    }
+
+    /// Is the feature applied: OpenType defaults of the default shaper per direction, overridden by the request.
+    fn feature_active(tag: &Tag, horizontal: bool, feats: &[String]) -> bool {
+        let t = tag_str(tag);
+        let mut on = ["abvm", "blwm", "ccmp", "locl", "mark", "mkmk", "rlig"].contains(&t.as_str())
+            || (horizontal && ["calt", "clig", "curs", "dist", "kern", "liga", "rclt"].contains(&t.as_str()));
+        for f in feats {
+            let (name, val) = if let Some(x) = f.strip_prefix('-') {
+                (x.to_string(), false)
+            } else if let Some((n, v)) = f.split_once('=') {
+                (n.to_string(), v != "0")
+            } else {
+                (f.trim_start_matches('+').to_string(), true)
+            };
+            if name == t {
+                on = val;
+            }
+        }
+        on
+    }
+
+    fn kern_requested(horizontal: bool, feats: &[String]) -> bool {
+        horizontal && feature_active(b"kern", true, feats)
+    }
+
+    #[derive(Clone, Debug)]
+    struct OG {
+        gid: u16,
+        lig: Option<usize>, // ligature instance this glyph belongs to (the ligature itself or a mark inside it)
+        comp: u8,           // for marks inside a ligature: the component they follow (1-based); 0 otherwise
+    }
+
+    /// Spec-level ligature formation (one GSUB lookup with ligature subtables), processing order.
+    fn liga_oracle(spec: &FontSpec, seq: &[u16], horizontal_dir: bool, feats: &[String]) -> Vec<OG> {
+        let plain: Vec<OG> = seq.iter().map(|g| OG { gid: *g, lig: None, comp: 0 }).collect();
+        let Some(gsub) = &spec.gsub else { return plain };
+        let active: Vec<u16> = gsub.features.iter().filter(|f| feature_active(&f.tag, horizontal_dir, feats)).flat_map(|f| f.lookup_indices.clone()).collect();
+        if active.is_empty() {
+            return plain;
+        }
+        let lk = &gsub.lookups[active[0] as usize];
+        let ign = |g: u16| ignored(spec, lk.flags, lk.mark_filtering_set, g);
+        let mut out: Vec<OG> = Vec::new();
+        let mut p = 0usize;
+        let mut inst = 0usize;
+        while p < seq.len() {
+            let g = seq[p];
+            let mut done = false;
+            if !ign(g) {
+                'sub: for st in &lk.subtables {
+                    let SubstSubtable::Ligature { coverage, ligature_sets } = st else { continue };
+                    let Some(ci) = coverage.index_of(g) else { continue };
+                    let Some(set) = ligature_sets.get(ci as usize) else { continue };
+                    for lig in set {
+                        let mut q = p;
+                        let mut positions = Vec::new();
+                        let mut ok = true;
+                        for c in &lig.components {
+                            let mut n = q + 1;
+                            while n < seq.len() && ign(seq[n]) {
+                                n += 1;
+                            }
+                            if n >= seq.len() || seq[n] != *c {
+                                ok = false;
+                                break;
+                            }
+                            positions.push(n);
+                            q = n;
+                        }
+                        if ok {
+                            out.push(OG { gid: lig.glyph, lig: Some(inst), comp: 0 });
+                            let mut comps = 1u8;
+                            for k in p + 1..=q {
+                                if positions.contains(&k) {
+                                    comps += 1;
+                                } else {
+                                    out.push(OG { gid: seq[k], lig: Some(inst), comp: comps });
+                                }
+                            }
+                            inst += 1;
+                            p = q + 1;
+                            done = true;
+                            break 'sub;
+                        }
+                    }
+                }
+            }
+            if !done {
+                out.push(OG { gid: g, lig: None, comp: 0 });
+                p += 1;
+            }
+        }
+        out
+    }
+
+    fn active_lookups<'a>(spec: &'a FontSpec, horizontal_dir: bool, feats: &[String]) -> Vec<&'a Lookup<PosSubtable>> {
+        let Some(gpos) = &spec.gpos else { return vec![] };
+        let mut idx: Vec<u16> = gpos.features.iter().filter(|f| feature_active(&f.tag, horizontal_dir, feats)).flat_map(|f| f.lookup_indices.clone()).collect();
+        idx.sort();
+        idx.dedup();
+        idx.iter().map(|i| &gpos.lookups[*i as usize]).collect()
+    }
+
+    fn matrix_get(rows: &[Vec<Option<Anchor>>], cols: u16, row: usize, col: u16) -> Option<Anchor> {
+        if col >= cols {
+            return None; // generated fonts of the geometric profiles never have a class outside the matrix
+        }
+        rows.get(row).and_then(|r| r.get(col as usize)).copied().flatten()
+    }
+
+    struct Pen {
+        ox: Vec<i64>, // origin of each glyph in output order
+        oy: Vec<i64>,
+    }
+
+    fn pen_of(gs: &[G]) -> Pen {
+        let mut x = 0i64;
+        let mut y = 0i64;
+        let mut ox = Vec::new();
+        let mut oy = Vec::new();
+        for g in gs {
+            ox.push(x + g.xo as i64);
+            oy.push(y + g.yo as i64);
+            x += g.xa as i64;
+            y += g.ya as i64;
+        }
+        Pen { ox, oy }
+    }
+
+    fn fail(index: u64, ci: usize, kind: &str, detail: String, req: &Req) {
+        println!("geo {} {} {} FAIL {} req=[{}]", index, ci, kind, detail, shp::fmt_req(req));
+    }
+
+    pub fn evaluate(spec: &FontSpec, bytes: &[u8], profile: Profile, req: &Req, gs: &[G], index: u64, ci: usize, stats: &mut Stats) {
+        let (pd, flipped, final_rev) = directions(req);
+        let n = gs.len();
+        // processing-order view of the output
+        let pidx = |i: usize| if final_rev { n - 1 - i } else { i };
+        let mut seq: Vec<u16> = req.text.iter().map(|(c, _)| (*c - 0xE000 + 1) as u16).collect();
+        if flipped {
+            seq.reverse();
+        }
+        let og = liga_oracle(spec, &seq, horizontal(pd), &req.features);
+        let gids_match = og.len() == n && (0..n).all(|i| gs[pidx(i)].gid == og[i].gid as u32);
+
+        // ---- kerning off == the same font with every kern value zero (and nothing else changes);
+        //      kerning on differs from it by exactly the stored amounts on the selected pairs
+        if let Some(kern) = &spec.kern {
+            let mut z = spec.clone();
+            z.kern = Some(kern.iter().map(|s| KernSubtable { pairs: s.pairs.iter().map(|p| (p.0, p.1, 0)).collect(), ..s.clone() }).collect());
+            let zb = build(&z);
+            // baseline: all kern values zero AND kerning requested (user kern switches dropped): with zero
+            // values the kerning pass changes nothing, so this is "the font without those amounts"
+            let mut req_on = req.clone();
+            req_on.features.retain(|f| !(f == "kern=0" || f == "-kern"));
+            if let Ok(base) = shape_spec(&zb, &req_on) {
+                let requested = kern_requested(horizontal(pd), &req.features);
+                let gpos_has_kern = spec.gpos.as_ref().map_or(false, |l| l.features.iter().any(|f| &f.tag == b"kern"));
+                let key = |v: &[G]| v.iter().map(|g| (g.gid, g.cluster, g.xa, g.ya, g.xo, g.yo)).collect::<Vec<_>>();
+                if gpos_has_kern {
+                    // the user's kern switch also switches the GPOS kern lookups: not comparable this way
+                    stats.add("geo.kern_off.skipped_gpos_kern_feature", 1);
+                } else if !requested || !horizontal(pd) {
+                    stats.add("geo.kern_off.checked", 1);
+                    if key(&base) != key(gs) {
+                        let order = base.iter().map(|g| (g.gid, g.cluster)).collect::<Vec<_>>() != gs.iter().map(|g| (g.gid, g.cluster)).collect::<Vec<_>>();
+                        fail(index, ci, if order { "kern-off-order" } else { "kern-off-positions" },
+                             format!("with kerning off the result differs from the same font with all kern values zero: got {} expected {}", shp::fmt_g(gs), shp::fmt_g(&base)), req);
+                    } else if final_rev {
+                        stats.add("geo.kern_off.backward", 1);
+                    }
+                } else if profile == Profile::Kern && gids_match && base.len() == n {
+                    kern_on(spec, kern, &base, gs, &og, pd, final_rev, index, ci, req, stats);
+                }
+            }
+        }
+        if !gids_match {
+            if matches!(profile, Profile::Marks | Profile::Cursive | Profile::Adjust) {
+                stats.add("geo.skipped.oracle_glyphs_differ", 1);
+                println!("geo {} {} oracle SKIP glyph sequence of the spec-level ligature oracle differs from the output", index, ci);
+            }
+            return;
+        }
+        let pen = pen_of(gs);
+        let lks = active_lookups(spec, horizontal(pd), &req.features);
+        match profile {
+            Profile::Marks => marks(spec, &lks, &og, gs, &pen, &pidx, index, ci, req, stats),
+            Profile::Cursive => cursive(spec, &lks, &og, gs, &pen, &pidx, pd, index, ci, req, stats),
+            Profile::Adjust => adjust(spec, bytes, &lks, &og, gs, &pidx, pd, index, ci, req, stats),
+            _ => {}
+        }
+    }
+
+    // ---------------------------------------------------------------- marks
+    #[allow(clippy::too_many_arguments)]
+    fn marks(spec: &FontSpec, lks: &[&Lookup<PosSubtable>], og: &[OG], gs: &[G], pen: &Pen, pidx: &dyn Fn(usize) -> usize, index: u64, ci: usize, req: &Req, stats: &mut Stats) {
+        let n = og.len();
+        let is_mark = |g: u16| gdef_class(spec, g) == 3;
+        // att[i] = (target, mark anchor, target anchor, kind): the LAST lookup that applies wins
+        let mut att: Vec<Option<(usize, Anchor, Anchor, &'static str)>> = vec![None; n];
+        for lk in lks {
+            for i in 0..n {
+                let g = og[i].gid;
+                if ignored(spec, lk.flags, lk.mark_filtering_set, g) {
+                    continue;
+                }
+                for st in &lk.subtables {
+                    let hit = match st {
+                        PosSubtable::MarkBase { mark_coverage, base_coverage, class_count, marks, bases } => (|| {
+                            let mi = mark_coverage.index_of(g)?;
+                            let j = (0..i).rev().find(|j| !is_mark(og[*j].gid))?;
+                            let bi = base_coverage.index_of(og[j].gid)?;
+                            let (cls, ma) = *marks.get(mi as usize)?;
+                            let ba = matrix_get(bases, *class_count, bi as usize, cls)?;
+                            Some((j, ma, ba, "markbase"))
+                        })(),
+                        PosSubtable::MarkLig { mark_coverage, lig_coverage, class_count, marks, ligatures } => (|| {
+                            let mi = mark_coverage.index_of(g)?;
+                            let j = (0..i).rev().find(|j| !is_mark(og[*j].gid))?;
+                            let li = lig_coverage.index_of(og[j].gid)?;
+                            let comps = ligatures.get(li as usize)?;
+                            if comps.is_empty() {
+                                return None;
+                            }
+                            // the component the mark belongs to: marks inside a ligature formed by GSUB follow
+                            // that component; every other mark goes to the last component
+                            let same = og[i].lig.is_some() && og[i].lig == og[j].lig && og[j].comp == 0 && og[i].comp > 0;
+                            let comp = if same { (og[i].comp as usize).min(comps.len()) } else { comps.len() } - 1;
+                            let (cls, ma) = *marks.get(mi as usize)?;
+                            let la = matrix_get(comps, *class_count, comp, cls)?;
+                            Some((j, ma, la, "marklig"))
+                        })(),
+                        PosSubtable::MarkMark { mark1_coverage, mark2_coverage, class_count, marks, mark2s } => (|| {
+                            let m1 = mark1_coverage.index_of(g)?;
+                            let j = (0..i).rev().find(|j| !ignored(spec, lk.flags & !0x000E, lk.mark_filtering_set, og[*j].gid))?;
+                            if !is_mark(og[j].gid) {
+                                return None;
+                            }
+                            // same base, or same component of the same ligature
+                            let (a, b) = (&og[i], &og[j]);
+                            let compatible = match (a.lig.filter(|_| a.comp > 0), b.lig.filter(|_| b.comp > 0)) {
+                                (None, None) => true,
+                                (Some(x), Some(y)) => x == y && a.comp == b.comp,
+                                _ => false,
+                            };
+                            if !compatible {
+                                return None;
+                            }
+                            let m2 = mark2_coverage.index_of(og[j].gid)?;
+                            let (cls, ma) = *marks.get(m1 as usize)?;
+                            let ta = matrix_get(mark2s, *class_count, m2 as usize, cls)?;
+                            Some((j, ma, ta, "markmark"))
+                        })(),
+                        _ => None,
+                    };
+                    if let Some(h) = hit {
+                        att[i] = Some(h);
+                        break;
+                    }
+                }
+            }
+        }
+        for i in 0..n {
+            if let Some((j, ma, ta, kind)) = att[i] {
+                let (oi, oj) = (pidx(i), pidx(j));
+                let mx = pen.ox[oi] + ma.x as i64;
+                let my = pen.oy[oi] + ma.y as i64;
+                let tx = pen.ox[oj] + ta.x as i64;
+                let ty = pen.oy[oj] + ta.y as i64;
+                stats.add(&format!("geo.{}.attachments", kind), 1);
+                if mx != tx || my != ty {
+                    fail(index, ci, kind, format!("mark glyph {} (output index {}) anchor at ({},{}) but target glyph {} (output index {}) anchor at ({},{}); output {}",
+                        og[i].gid, oi, mx, my, og[j].gid, oj, tx, ty, shp::fmt_g(gs)), req);
+                    return;
+                }
+            }
+        }
+        stats.add("geo.marks.checked", 1);
+    }
+
+    // ---------------------------------------------------------------- cursive
+    #[allow(clippy::too_many_arguments)]
+    fn cursive(spec: &FontSpec, lks: &[&Lookup<PosSubtable>], og: &[OG], gs: &[G], pen: &Pen, pidx: &dyn Fn(usize) -> usize, pd: D, index: u64, ci: usize, req: &Req, stats: &mut Stats) {
+        let n = og.len();
+        for lk in lks {
+            let Some(PosSubtable::Cursive { coverage, entry_exit }) = lk.subtables.first() else { continue };
+            let ign = |g: u16| ignored(spec, lk.flags, lk.mark_filtering_set, g);
+            let ee = |g: u16| coverage.index_of(g).and_then(|k| entry_exit.get(k as usize)).copied();
+            for i in 0..n {
+                if ign(og[i].gid) {
+                    continue;
+                }
+                let Some((Some(entry), _)) = ee(og[i].gid) else { continue };
+                let Some(p) = (0..i).rev().find(|j| !ign(og[*j].gid)) else { continue };
+                let Some((_, Some(exit))) = ee(og[p].gid) else { continue };
+                let (oi, op) = (pidx(i), pidx(p));
+                let ex = pen.ox[oi] + entry.x as i64;
+                let ey = pen.oy[oi] + entry.y as i64;
+                let xx = pen.ox[op] + exit.x as i64;
+                let xy = pen.oy[op] + exit.y as i64;
+                // the glyphs strictly between the two (skipped by the lookup) must not advance the pen
+                let (lo, hi) = (oi.min(op), oi.max(op));
+                let between_zero = (lo + 1..hi).all(|k| gs[k].xa == 0 && gs[k].ya == 0);
+                // glyphs that GDEF classifies as marks get their advance zeroed after GPOS (default shaper:
+                // zero_width_marks BY_GDEF_LATE), which is where cursive keeps the main-axis alignment
+                let has_mark = has_classes(spec) && (gdef_class(spec, og[i].gid) == 3 || gdef_class(spec, og[p].gid) == 3);
+                let between_zero = between_zero && !has_mark;
+                let (cross_ok, main_ok) = if horizontal(pd) { (ey == xy, ex == xx) } else { (ex == xx, ey == xy) };
+                stats.add("geo.cursive.connections", 1);
+                if lk.flags & lookup_flags::RIGHT_TO_LEFT != 0 {
+                    stats.add("geo.cursive.connections_rtl_flag", 1);
+                }
+                if !cross_ok || (between_zero && !main_ok) {
+                    fail(index, ci, "cursive", format!("entry anchor of glyph {} (output index {}) at ({},{}) but exit anchor of glyph {} (output index {}) at ({},{}); RightToLeft flag {}; output {}",
+                        og[i].gid, oi, ex, ey, og[p].gid, op, xx, xy, lk.flags & 1, shp::fmt_g(gs)), req);
+                    return;
+                }
+                if between_zero {
+                    stats.add("geo.cursive.both_axes", 1);
+                }
+            }
+        }
+        stats.add("geo.cursive.checked", 1);
+    }
+
+    // ---------------------------------------------------------------- single / pair adjustments
+    fn add_vr(h: bool, v: &ValueRecord, d: &mut [i64; 4]) {
+        if h {
+            d[0] += v.x_advance as i64;
+        } else {
+            d[1] -= v.y_advance as i64;
+        }
+        d[2] += v.x_placement as i64;
+        d[3] += v.y_placement as i64;
+    }
+
+    fn pair_records(st: &PosSubtable, g1: u16, g2: u16) -> Option<(ValueRecord, ValueRecord)> {
+        match st {
+            PosSubtable::Pair1 { coverage, pair_sets, .. } => {
+                let k = coverage.index_of(g1)?;
+                pair_sets.get(k as usize)?.iter().find(|p| p.0 == g2).map(|p| (p.1, p.2))
+            }
+            PosSubtable::Pair2 { coverage, class_def1, class_def2, records, .. } => {
+                coverage.index_of(g1)?;
+                let row = records.get(class_def1.class_of(g1) as usize)?;
+                row.get(class_def2.class_of(g2) as usize).copied()
+            }
+            _ => None,
+        }
+    }
+
+    #[allow(clippy::too_many_arguments)]
+    fn adjust(spec: &FontSpec, bytes: &[u8], lks: &[&Lookup<PosSubtable>], og: &[OG], gs: &[G], pidx: &dyn Fn(usize) -> usize, pd: D, index: u64, ci: usize, req: &Req, stats: &mut Stats) {
+        let n = og.len();
+        let h = horizontal(pd);
+        // baseline: the same request with every GPOS feature of the font switched off
+        let mut r0 = req.clone();
+        for t in gpos_tags(spec) {
+            r0.features.push(format!("-{}", tag_str(&t)));
+        }
+        let Ok(base) = shape_spec(bytes, &r0) else { return };
+        if base.len() != n {
+            fail(index, ci, "adjust", "glyph count changes when GPOS features are switched off".to_string(), req);
+            return;
+        }
+        let mut delta = vec![[0i64; 4]; n];
+        let mut singles = 0u64;
+        let mut pairs = 0u64;
+        for lk in lks {
+            let ign = |g: u16| ignored(spec, lk.flags, lk.mark_filtering_set, g);
+            let is_pair = matches!(lk.subtables.first(), Some(PosSubtable::Pair1 { .. } | PosSubtable::Pair2 { .. }));
+            if !is_pair {
+                for i in 0..n {
+                    if ign(og[i].gid) {
+                        continue;
+                    }
+                    for st in &lk.subtables {
+                        let v = match st {
+                            PosSubtable::Single1 { coverage, value, .. } => coverage.index_of(og[i].gid).map(|_| *value),
+                            PosSubtable::Single2 { coverage, values, .. } => coverage.index_of(og[i].gid).and_then(|k| values.get(k as usize).copied()),
+                            _ => None,
+                        };
+                        if let Some(v) = v {
+                            add_vr(h, &v, &mut delta[i]);
+                            singles += 1;
+                            break;
+                        }
+                    }
+                }
+            } else {
+                let mut i = 0usize;
+                while i < n {
+                    let mut next = i + 1;
+                    if !ign(og[i].gid) {
+                        if let Some(j) = (i + 1..n).find(|j| !ign(og[*j].gid)) {
+                            for st in &lk.subtables {
+                                if let Some((v1, v2)) = pair_records(st, og[i].gid, og[j].gid) {
+                                    add_vr(h, &v1, &mut delta[i]);
+                                    add_vr(h, &v2, &mut delta[j]);
+                                    pairs += 1;
+                                    next = if v2 != ValueRecord::ZERO { j + 1 } else { j };
+                                    break;
+                                }
+                            }
+                        }
+                    }
+                    i = next;
+                }
+            }
+        }
+        stats.add("geo.adjust.checked", 1);
+        stats.add("geo.adjust.singles", singles);
+        stats.add("geo.adjust.pairs", pairs);
+        for i in 0..n {
+            let o = pidx(i);
+            let (a, b) = (&gs[o], &base[o]);
+            let got = [(a.xa - b.xa) as i64, (a.ya - b.ya) as i64, (a.xo - b.xo) as i64, (a.yo - b.yo) as i64];
+            // marks lose their advance afterwards (zero_mark_widths_by_gdef): only offsets are comparable there
+            let mark = gdef_class(spec, og[i].gid) == 3 && has_classes(spec);
+            let ok = if mark { got[2] == delta[i][2] && got[3] == delta[i][3] } else { got == delta[i] };
+            if a.gid != b.gid || a.cluster != b.cluster || !ok {
+                fail(index, ci, "adjust", format!("glyph {} (output index {}): change of (xa,ya,xo,yo) relative to GPOS off is {:?}, the font's records give {:?}; output {} baseline {}",
+                    og[i].gid, o, got, delta[i], shp::fmt_g(gs), shp::fmt_g(&base)), req);
+                return;
+            }
+        }
+    }
+
+    // ---------------------------------------------------------------- legacy kern, kerning on
+    #[allow(clippy::too_many_arguments)]
+    fn kern_on(spec: &FontSpec, kern: &[KernSubtable], base: &[G], gs: &[G], og: &[OG], pd: D, final_rev: bool, index: u64, ci: usize, req: &Req, stats: &mut Stats) {
+        let n = og.len();
+        if n == 0 || spec.gpos.is_some() {
+            stats.add("geo.kern_on.skipped_gpos", 1);
+            return;
+        }
+        let is_mark = |g: u16| has_classes(spec) && gdef_class(spec, g) == 3;
+        // machine_kern works on the visual order for backward text: arrays in OUTPUT order
+        let gid_out: Vec<u16> = (0..n).map(|o| gs[o].gid as u16).collect();
+        if is_mark(gid_out[0]) {
+            stats.add("geo.kern_on.skipped_leading_mark", 1);
+            return;
+        }
+        let _ = final_rev;
+        let mut dxa = vec![0i64; n];
+        let mut dxo = vec![0i64; n];
+        let mut own_y: Vec<Option<i64>> = vec![None; n];
+        let mut any_cross = false;
+        let mut applied = 0u64;
+        for st in kern.iter().filter(|s| s.horizontal) {
+            let mut i = 0usize;
+            while i < n {
+                let Some(j) = (i + 1..n).find(|j| !is_mark(gid_out[*j])) else {
+                    i += 1;
+                    continue;
+                };
+                let k = st.pairs.iter().find(|p| p.0 == gid_out[i] && p.1 == gid_out[j]).map_or(0, |p| p.2 as i64);
+                if k != 0 {
+                    applied += 1;
+                    if st.cross_stream {
+                        own_y[j] = Some(k);
+                        any_cross = true;
+                    } else {
+                        let k1 = k >> 1;
+                        dxa[i] += k1;
+                        dxa[j] += k - k1;
+                        dxo[j] += k - k1;
+                    }
+                }
+                i = j;
+            }
+        }
+        stats.add("geo.kern_on.checked", 1);
+        stats.add("geo.kern_on.pairs", applied);
+        // cross-stream shifts persist: every glyph inherits the shift of the glyph before it in
+        // processing order (= output order for forward text, reverse output order for backward text)
+        let mut exp_yo: Vec<i64> = (0..n).map(|o| own_y[o].unwrap_or(base[o].yo as i64)).collect();
+        if any_cross {
+            if forward(pd) {
+                for o in 1..n {
+                    exp_yo[o] += exp_yo[o - 1];
+                }
+            } else {
+                // processing order is the reverse of the output order and the chain points at the NEXT
+                // glyph in processing order = the previous one in output order
+                for o in 1..n {
+                    exp_yo[o] += exp_yo[o - 1];
+                }
+            }
+        }
+        for o in 0..n {
+            let mark = is_mark(gid_out[o]);
+            let exp_xa = if mark { 0 } else { base[o].xa as i64 + dxa[o] };
+            let exp_xo = base[o].xo as i64 + dxo[o];
+            if gs[o].gid != base[o].gid || gs[o].cluster != base[o].cluster || gs[o].xa as i64 != exp_xa || gs[o].xo as i64 != exp_xo || gs[o].yo as i64 != exp_yo[o] || gs[o].ya != base[o].ya {
+                fail(index, ci, "kern-on", format!("output index {} glyph {}: got xa={} xo={} yo={}, the kern pairs give xa={} xo={} yo={}; output {} zero-kern baseline {}",
+                    o, gid_out[o], gs[o].xa, gs[o].xo, gs[o].yo, exp_xa, exp_xo, exp_yo[o], shp::fmt_g(gs), shp::fmt_g(base)), req);
+                return;
+            }
+        }
+    }
 }
